@@ -16,6 +16,19 @@ func init() {
 	Registry["C14"] = C14
 	Replayers["c14-case"] = replayC14
 	Replayers["c14-big"] = replayC14Big
+	Replayers["c14-fresh"] = func(c json.RawMessage) (bool, string) {
+		var k c14Case
+		json.Unmarshal(c, &k)
+		for i, o := range c14FreshOps() {
+			if o.pos == k.Pos && o.width == k.Width && o.signed == k.Signed {
+				o2 := c14FreshOps()[(i+37)%len(c14FreshOps())]
+				want := c14Ref(c14FreshBuf, o.pos, o.width, o.signed).String() + " " + c14Ref(c14FreshBuf, o2.pos, o2.width, o2.signed).String()
+				got, fault := runFresh("C14", i)
+				return fault != "" || got != want, fmt.Sprintf("got %q want %q %s", got, want, fault)
+			}
+		}
+		return false, "operation not in the table"
+	}
 }
 
 type c14Case struct {
@@ -103,10 +116,54 @@ func replayC14Big(c json.RawMessage) (bool, string) {
 	return bad, fmt.Sprintf("got %v want %v", got, want)
 }
 
+// E4: each extraction as the first call of a fresh process.
+type c14Op struct {
+	pos, width int
+	signed     bool
+}
+
+var c14FreshBuf = []byte{0x00, 0xFF, 0xFE, 0x80, 0x01, 0x7F, 0xC3, 0xA5, 0x5A, 0x81, 0xFF, 0x00}
+
+func c14FreshOps() []c14Op {
+	var ops []c14Op
+	for _, pos := range []int{0, 1, 7, 8, 9, 16, 24} {
+		for _, w := range []int{1, 2, 7, 8, 9, 15, 16, 17, 24, 31, 32, 33, 40, 48, 56, 63, 64} {
+			for _, signed := range []bool{false, true} {
+				if (signed && w < 2) || pos+w > 8*len(c14FreshBuf) {
+					continue
+				}
+				ops = append(ops, c14Op{pos, w, signed})
+			}
+		}
+	}
+	return ops
+}
+
+func init() {
+	Fresh["C14"] = func(i int) string {
+		ops := c14FreshOps()
+		if i < 0 || i >= len(ops) {
+			return "no such operation"
+		}
+		o := ops[i]
+		first, p := c14Eval(c14FreshBuf, o.pos, o.width, o.signed)
+		if p != "" {
+			return "panic " + p
+		}
+		// and a second, different call afterwards (state the first one left behind)
+		o2 := ops[(i+37)%len(ops)]
+		second, p2 := c14Eval(c14FreshBuf, o2.pos, o2.width, o2.signed)
+		if p2 != "" {
+			return first.String() + " panic " + p2
+		}
+		return first.String() + " " + second.String()
+	}
+}
+
 // C14: bit-field extraction against a big-integer / shift-and-mask reference.
 func C14(r *ev.Run) {
 	thorough := r.Tier == "thorough"
-	r.Rule = "E1: every bit pattern of a 2-byte (quick) / 3-byte (thorough) buffer x every (pos,width) inside it, unsigned and signed, vs shift-and-mask on the whole integer; E2: widths 1..64 x pos 0..23 x buffer sized exactly to the field and a 12-byte buffer x {all0, all1, walking 1, walking 0, every pair of set bits, field-ones/outside-zero, field-zero/outside-ones, top bit only, two alternating patterns} vs math/big; E3: buffers of 2^8, 2^13, 2^16, 2^21, 2^24 (thorough: 2^28, 2^29) + 16 bytes with a position-dependent fill and its complement x every position in the 11 bytes round that byte index x every width, unsigned and signed, vs the reference applied to the bytes that hold the field (index arithmetic far from the start of the buffer); non-trivial distinct = distinct (width,pos,signedness,pattern class) combinations"
+	r.Rule = "E1: every bit pattern of a 2-byte (quick) / 3-byte (thorough) buffer x every (pos,width) inside it, unsigned and signed, vs shift-and-mask on the whole integer; E2: widths 1..64 x pos 0..23 x buffer sized exactly to the field and a 12-byte buffer x {all0, all1, walking 1, walking 0, every pair of set bits, field-ones/outside-zero, field-zero/outside-ones, top bit only, two alternating patterns} vs math/big; E3: buffers of 2^8, 2^13, 2^16, 2^21, 2^24 (thorough: 2^28, 2^29) + 16 bytes with a position-dependent fill and its complement x every position in the 11 bytes round that byte index x every width, unsigned and signed, vs the reference applied to the bytes that hold the field (index arithmetic far from the start of the buffer); E4: 7 alignments x 17 widths x signedness, each as the first extraction of a fresh process (one child process per case) followed by one other; non-trivial distinct = distinct (width,pos,signedness,pattern class) combinations"
 	r.Assumptions = []string{"reads before the field cannot be observed directly; influence of outside bits is checked by the complement patterns; reads past the end are caught by the exactly-sized buffers (they panic)"}
 	fail := func(buf []byte, pos, width int, signed bool, got, want interface{}, kind string) {
 		s := "unsigned"
@@ -279,6 +336,30 @@ func C14(r *ev.Run) {
 			})
 		}
 	}
+	// E4 — every (alignment, width, signedness) class as the FIRST extraction of a
+	// fresh process, followed by one other: tables or masks that code builds
+	// lazily must be right whichever call comes first
+	fops := c14FreshOps()
+	parallelFor(len(fops), func(i int) {
+		o, o2 := fops[i], fops[(i+37)%len(fops)]
+		want := c14Ref(c14FreshBuf, o.pos, o.width, o.signed).String() + " " + c14Ref(c14FreshBuf, o2.pos, o2.width, o2.signed).String()
+		got, fault := runFresh("C14", i)
+		r.Count(2, 1, 2, 2)
+		if fault != "" {
+			r.Cap("fresh-process operation could not be run: " + fault)
+			return
+		}
+		if got != want {
+			s := "unsigned"
+			if o.signed {
+				s = "signed"
+			}
+			r.Violate(ev.Violation{Fingerprint: fmt.Sprintf("C14 %s first-call-in-a-fresh-process width=%d", s, o.width),
+				What: fmt.Sprintf("%s extraction of %d bits at %d as the first call of a new process, then (%d,%d,signed=%v): got %q want %q", s, o.width, o.pos, o2.pos, o2.width, o2.signed, got, want),
+				Case: c14Case{ev.FullHex(c14FreshBuf), o.pos, o.width, o.signed}, Expected: want, Actual: got, ReplayKind: "c14-fresh"})
+		}
+	})
+	r.Extra["E4_fresh_process_first_calls"] = len(fops)
 	r.Extra["E3_boundaries_bytes"] = bounds
 	r.Sample(map[string]interface{}{"enumeration": "E3", "boundary_bytes": 65536, "pos": 8*65536 - 3, "width": 38})
 	r.States = int64(len(pws))*2 + int64(total) + int64(len(bounds))*2*88
